@@ -100,6 +100,16 @@ pub struct Run {
     pub cases: u64,
     pub wall_cap_s: f64,
     pub capped: bool,
+    /// cases kept for the determinism self-check: (case, fingerprint of the first answer)
+    pub recheck: Vec<(Value, String)>,
+    pub rechecked: u64,
+}
+
+/// What must be identical when a case is executed a second time.
+fn fingerprint(v: &Value) -> String {
+    let mut sigs: Vec<String> = v["bad"].as_array().map(|a| a.iter().map(|b| b["sig"].as_str().unwrap_or("?").to_string()).collect()).unwrap_or_default();
+    sigs.sort();
+    json!({"n": v["n"], "nontrivial": v["nontrivial"], "hist": v["hist"], "sigs": sigs}).to_string()
 }
 
 impl Run {
@@ -122,6 +132,8 @@ impl Run {
             cases: 0,
             wall_cap_s,
             capped: false,
+            recheck: vec![],
+            rechecked: 0,
         }
     }
 
@@ -149,6 +161,10 @@ impl Run {
                     }
                     self.evaluations += v["n"].as_u64().unwrap_or(1);
                     self.nontrivial += v["nontrivial"].as_u64().unwrap_or(0);
+                    let has_bad = v["bad"].as_array().map(|a| !a.is_empty()).unwrap_or(false);
+                    if (idx < 8 && self.recheck.len() < 40) || (has_bad && self.recheck.len() < 40) {
+                        self.recheck.push((case.clone(), fingerprint(&v)));
+                    }
                     if let Some(keys) = v["keys"].as_array() {
                         for k in keys {
                             if let Some(s) = k.as_str() {
@@ -216,10 +232,51 @@ impl Run {
     }
 
     /// Common tail: machinery failures are exit 2, otherwise evidence + protocol lines.
-    pub fn finish(self, mut evidence: vcore::Evidence) -> i32 {
+    /// Determinism self-check: the first cases and every case that reported a violation are executed
+    /// a second time in fresh workers; a different answer is a machinery failure, not a verdict.
+    fn recheck_determinism(&mut self) {
+        if self.recheck.is_empty() || std::env::var("VERIF_NO_RECHECK").is_ok() {
+            return;
+        }
+        let pool = Pool::new(&self.reporter.prop);
+        let kept: Vec<(Value, String)> = std::mem::take(&mut self.recheck);
+        let cases: Vec<Value> = kept.iter().map(|(c, _)| c.clone()).collect();
+        let mut second: Vec<Option<String>> = vec![None; kept.len()];
+        pool.run(cases.into_iter(), |idx, _case, resp| {
+            if let Resp::Ok(v) = resp {
+                second[idx as usize] = Some(fingerprint(&v));
+            }
+        });
+        for (k, (case, first)) in kept.iter().enumerate() {
+            self.rechecked += 1;
+            match &second[k] {
+                Some(f) if f == first => {}
+                Some(f) => self.machinery.push(format!("nondeterministic case: first answer {} second answer {} for {}", truncate_text(first, 300), truncate_text(f, 300), truncate_text(&case.to_string(), 300))),
+                None => {
+                    // a crash or hang the second time only
+                    if !first.contains("crash") {
+                        self.machinery.push(format!("case answered the first time but not the second: {}", truncate_text(&case.to_string(), 300)));
+                    }
+                }
+            }
+        }
+    }
+
+    pub fn finish(mut self, mut evidence: vcore::Evidence) -> i32 {
+        self.recheck_determinism();
+        evidence.set("determinism_rechecked_cases", self.rechecked);
         if !self.machinery.is_empty() {
             for m in &self.machinery {
                 eprintln!("MACHINERY: {}", m);
+            }
+            // kept for post-mortems (the evidence file is not rewritten by a machinery failure)
+            if let Ok(root) = std::env::var("VERIF_ROOT") {
+                use std::io::Write;
+                if let Ok(mut f) = std::fs::OpenOptions::new().create(true).append(true).open(format!("{}/target/machinery.log", root)) {
+                    for m in &self.machinery {
+                        let _ = writeln!(f, "{} {}: {}", self.reporter.prop, self.reporter.tier, m);
+                    }
+                }
             }
             return 2;
         }
